@@ -45,7 +45,13 @@ SeqOps == <<
   [n |-> "qq-back",     ar |-> 1, t |-> "(quasiquote (2 (splice-unquote _1)))"],
   [n |-> "apply",       ar |-> 1, t |-> "(apply list 1 _1)"],
   [n |-> "map",         ar |-> 1, t |-> "(map identity _1)"],
-  [n |-> "update",      ar |-> 1, t |-> "(update (vec _1) 0 inc)"] >>
+  [n |-> "update",      ar |-> 1, t |-> "(update (vec _1) 0 inc)"],
+  [n |-> "concat3-empty", ar |-> 1, t |-> "(concat [] _1 [6])"],
+  [n |-> "concat-empty2", ar |-> 2, t |-> "(concat () _1 _2)"],
+  [n |-> "apply-concat",  ar |-> 1, t |-> "(apply concat (list (list) _1 (list 6)))"],
+  [n |-> "map-restfn",    ar |-> 1, t |-> "(map (fn [& r] r) _1)"],
+  [n |-> "apply-restfn",  ar |-> 1, t |-> "(apply (fn [& r] r) _1)"],
+  [n |-> "apply-restfn1", ar |-> 1, t |-> "(apply (fn [a & r] r) 0 _1)"] >>
 
 MapOps == <<
   [n |-> "assoc",       ar |-> 1, t |-> "(assoc _1 :b 2)"],
@@ -148,6 +154,12 @@ SeqStep(op, hp, ha, hb) ==
     [] op = "apply" -> Fresh(hp, "list", <<1>> \o xs)
     [] op = "map" -> Fresh(hp, "list", xs)
     [] op = "update" -> IF n >= 1 THEN Fresh(hp, "vec", [xs EXCEPT ![1] = @ + 1]) ELSE {}
+    [] op = "concat3-empty" -> Fresh(hp, "list", xs \o <<6>>)       \* the copy of the (empty) first argument is appended to
+    [] op = "concat-empty2" -> Fresh(hp, "list", xs \o Abs(hb, hp))
+    [] op = "apply-concat" -> Fresh(hp, "list", xs \o <<6>>)
+    [] op = "map-restfn" -> {[heap |-> hp, h |-> Hdr("list", 0, 0, 0, 0)]}   \* a list of lists: outside the integer heap
+    [] op = "apply-restfn" -> Fresh(hp, "list", xs)
+    [] op = "apply-restfn1" -> Fresh(hp, "list", xs)
 
 Init ==
   /\ hist = <<>> /\ danger = FALSE
